@@ -193,12 +193,14 @@ def _try(f):
 
 
 def dyadic_value(rng, nonneg):
-    c = rng.choice(['pow2', 'pow2m', 'zero', 'generic', 'generic', 'small', 'int'])
+    c = rng.choice(['pow2', 'pow2m', 'pow2p', 'zero', 'generic', 'generic', 'small', 'int'])
     f = rng.randint(0, 20)
     if c == 'pow2':
         v = F(2) ** rng.randint(-f, 30)
     elif c == 'pow2m':
         v = F(2) ** rng.randint(0, 30) - F(1, 2 ** f)
+    elif c == 'pow2p':
+        v = F(2) ** rng.randint(0, 30) + F(1, 2 ** f)       # just beyond a power of two (negated: just below -2^k)
     elif c == 'zero':
         v = F(0)
     elif c == 'small':
@@ -242,7 +244,8 @@ def run_case(case, ctx):
         kw = {} if sg is None else {'signed': sg}
         _try(lambda: Fxp(val, **kw))
         # only n_word: enough room, exactly enough, too little
-        for nw in {nfe + ib + s, nfe + ib + s + rng.randint(1, 6), max(1, nfe + ib + s - rng.randint(1, 3)), rng.randint(2, 48)}:
+        for nw in {nfe + ib + s, nfe + ib + s + rng.randint(1, 6), max(1, nfe + ib + s - rng.randint(1, 3)), rng.randint(2, 48),
+                   ib + s + rng.randint(0, 3), max(1, ib + s + nfe // 2)}:
             if 1 <= nw <= 64:
                 _try(lambda: Fxp(val, n_word=nw, **kw))
         # only n_frac
